@@ -284,6 +284,7 @@ type gaTr struct {
 	hoistOK  bool
 	label    string // pending label for the next loop
 	nparams  int
+	frozen   map[int]int // variables being ranged over: no writes inside the loop body
 }
 
 var gaSigs = map[string]*gaSig{} // key "pkg.Func"
@@ -633,7 +634,12 @@ func (t *gaTr) call(x *ast.CallExpr) (string, string) {
 			}
 			return gaUnsE("len " + gaSrc(x)), "?"
 		case "append":
+			// slices are values in GoLang.v: appending to a parameter could write into memory the
+			// caller shares, so only local slices may be appended to
 			if len(x.Args) == 2 {
+				if root := gaRootVar(t, x.Args[0]); root < t.nparams {
+					return gaUnsE("append to a non-local slice " + gaSrc(x)), "?"
+				}
 				ca, ta := t.expr(x.Args[0])
 				cb, tb := t.expr(x.Args[1])
 				if strings.HasPrefix(ta, "[]") && (ta[2:] == tb || tb == "untyped") {
@@ -763,6 +769,23 @@ func (t *gaTr) args(x *ast.CallExpr, sig *gaSig) ([]string, bool) {
 	return args, true
 }
 
+// gaRootVar: the variable at the root of an expression like v, v[i], v[i:j] (-1 if none)
+func gaRootVar(t *gaTr, e ast.Expr) int {
+	switch x := e.(type) {
+	case *ast.Ident:
+		if v := t.lookup(x.Name); v != nil {
+			return v.idx
+		}
+	case *ast.IndexExpr:
+		return gaRootVar(t, x.X)
+	case *ast.SliceExpr:
+		return gaRootVar(t, x.X)
+	case *ast.ParenExpr:
+		return gaRootVar(t, x.X)
+	}
+	return -1
+}
+
 func gaIsInt(t string) bool { _, ok := gaKind(t); return ok }
 
 // ---------------------------------------------------------------------------
@@ -784,7 +807,7 @@ func (t *gaTr) lhs(e ast.Expr) (string, string) {
 		if x.Name == "_" {
 			return "LBlank", "_"
 		}
-		if v := t.lookup(x.Name); v != nil && !strings.HasPrefix(v.typ, "*") {
+		if v := t.lookup(x.Name); v != nil && !strings.HasPrefix(v.typ, "*") && t.frozen[v.idx] == 0 {
 			return fmt.Sprintf("(LVar %d (*%s*))", v.idx, v.name), v.typ
 		}
 	case *ast.StarExpr:
@@ -796,7 +819,7 @@ func (t *gaTr) lhs(e ast.Expr) (string, string) {
 		}
 	case *ast.IndexExpr:
 		if id, ok := x.X.(*ast.Ident); ok {
-			if v := t.lookup(id.Name); v != nil && strings.HasPrefix(v.typ, "[]") {
+			if v := t.lookup(id.Name); v != nil && strings.HasPrefix(v.typ, "[]") && t.frozen[v.idx] == 0 {
 				ci, ti := t.expr(x.Index)
 				if gaIsInt(ti) || ti == "untyped" {
 					if v.idx < t.nparams {
@@ -1127,7 +1150,16 @@ func (t *gaTr) stmt(s ast.Stmt) string {
 		id := t.nloops
 		t.nloops++
 		t.loops = append(t.loops, gaLoop{id, label})
+		// the interpreter iterates over a snapshot; Go would see writes to the elements of the
+		// ranged slice, so such writes are refused inside the body
+		ranged := gaRootVar(t, x.X)
+		if ranged >= 0 {
+			t.frozen[ranged]++
+		}
 		body := t.block(x.Body)
+		if ranged >= 0 {
+			t.frozen[ranged]--
+		}
 		t.loops = t.loops[:len(t.loops)-1]
 		return gaSeq(append(pre, fmt.Sprintf("(SRange %d %s %s %s\n%s)", id, kv[0], kv[1], cx, body)))
 	case *ast.BranchStmt:
@@ -1182,7 +1214,7 @@ func (t *gaTr) stmt(s ast.Stmt) string {
 			case "copy":
 				if len(call.Args) == 2 {
 					if d, ok := call.Args[0].(*ast.Ident); ok {
-						if v := t.lookup(d.Name); v != nil && strings.HasPrefix(v.typ, "[]") {
+						if v := t.lookup(d.Name); v != nil && strings.HasPrefix(v.typ, "[]") && t.frozen[v.idx] == 0 {
 							var c, ty string
 							pre := t.withPre(func() { c, ty = t.expr(call.Args[1]) })
 							if ty == v.typ || (v.typ == "[]uint8" && ty == "string") {
@@ -1226,7 +1258,7 @@ func goastFunc(k gaKernel) string {
 	if fd == nil || fd.Body == nil {
 		return head + "  {| f_nparams := 0; f_nvars := 0; f_outs := []; f_body := SUnsupported \"function not found\" |}.\n"
 	}
-	t := &gaTr{pkg: f.Name.Name, dir: k.dir, imports: map[string]string{}, outs: map[int]bool{}}
+	t := &gaTr{pkg: f.Name.Name, dir: k.dir, imports: map[string]string{}, outs: map[int]bool{}, frozen: map[int]int{}}
 	for _, im := range f.Imports {
 		p, _ := strconv.Unquote(im.Path.Value)
 		name := filepath.Base(p)
